@@ -80,7 +80,7 @@ class AnnotatedTypeHint(TypeHint):
         if (
             # The child type hint annotated by this parent hint does not subhint
             # the child type hint annotated by that parent hint *OR*...
-            self._metahint_wrapper > branch._metahint_wrapper or
+            not (self._metahint_wrapper <= branch._metahint_wrapper) or
             # These hints are annotated by a differing number of objects...
             len(self._metadata) != len(branch._metadata)
         ):
